@@ -26,6 +26,16 @@ def run_ops(n, order, ops):
         elif op == 'R':
             c.reset_progress()
             i = 0
+        elif op == 'P':
+            # an apply submission in between (it goes to some worker's queue; what matters here is what it does to the chunks)
+            c.add_apply_task(12345, len, ((),), {})
+            for q in c._task_queues:
+                try:
+                    while True:
+                        q.get(block=False)
+                        q.task_done()
+                except Exception:  # noqa: empty
+                    pass
         else:
             w = int(op[2:])
             c.add_results(w, [(0, True, None)])
@@ -37,5 +47,5 @@ def gen_ops(rng, n):
     ops = []
     for _ in range(rng.randint(0, 25)):
         r = rng.random()
-        ops.append('A' if r < .55 else 'R' if r < .62 else 'C:%d' % rng.randrange(n))
+        ops.append('A' if r < .5 else 'R' if r < .57 else 'P' if r < .7 else 'C:%d' % rng.randrange(n))
     return ops
